@@ -7,14 +7,23 @@ Dimensions of a history (fields of a case, all optional):
          tuple | str | bound | scale;  sd: func (identity == equality) | bound (a bound method fetched
          again) | scale (callable instances with __eq__/__hash__) | mixed | picky (== with a foreign
          type raises)
-  kf     key universe: plain | fresh (an equal string built again for every use) | int (mk only)
+  kf     key universe: plain | fresh (an equal string built again for every use) | int | kinds (str, int, None,
+         float, frozenset, bytes keys in one dict) | numeq (keys equal across types: 1 / 1.0 / True, another
+         spelling at every use) (the last three mk only)
+  init   (mk) the arguments of the constructor: {"form": dict | pairs | iter | kwargs | pairs+kwargs | dict+kwargs,
+         "pairs": [[keys, v, r], ...]} (repeated keys, tuple keys = key tuples); routes ctor / fromkeys feed leading
+         single-key assignments through MultiKeyDict(dict) / MultiKeyDict.fromkeys; sd routes decorator
+         (keep_name=True) / decorator-rename (keep_name left to its default: renamed to the FIRST name)
   decoy  a second dict of the same class receives mirrored operations (sharing the value objects) and
          lookups between the steps; the dict under test must not notice
   view   "all" | "last" | {"every": n}: after which steps the whole state is observed
 and of an operation: rejected operations (`setu` unhashable value, `setbk` unhashable key in the tuple,
 `setns` non-string StrategyDict name, `bad` lookup / deletion with an unhashable operand) — whatever
 raises must leave every observable unchanged; `fork` (mk) continues on `MultiKeyDict(d)` and keeps
-watching the original."""
+watching the original;  `kc` = a call with a key argument of ANY shape: ["kc", kind, arg, (value,) uk] with kind
+set | get | del | k2k | v2k | in | dget (`d.get`), arg {"s": item} (a single object) or {"t": [items]} (a tuple of
+any length), item = a key name | None (an unhashable object of kind uk) | an int (sd: a hashable non-string),
+value = a class | None (unhashable).  The exception KIND is compared (TypeError = "Rejected" vs KeyError)."""
 import gc
 import itertools
 import json
@@ -51,14 +60,28 @@ RULE = ("exhaustive histories over small universes (mk: 3 keys x 2 values, tuple
         "ints, decoy dict sharing the value objects, copy-constructor forks, rejected operations) plus long "
         "histories (1000-4000 operations over 12 keys, light view after every step, full view every 97th; random histories "
         "of 20 / 40 operations: full view every 4th step) plus a "
-        "small malformed stream (empty key tuple); a case is non-trivial when at least one assignment succeeded and "
+        "small malformed stream (empty key tuple); plus key arguments of every shape for every operation: sweeps of "
+        "all non-mutating calls (get / del / key2keys / value2keys / in / dict.get / refused assignments) x (single item, "
+        "tuples of length 0..3 over two keys, an unhashable object and - sd - a non-string, at every position) after 19 (mk) / "
+        "17 (sd) prefixes followed by an ordinary assignment, and random calls (tuples of length <= 4) inside the random and long "
+        "histories; constructor arguments in six call forms with repeated and tuple keys, dict.fromkeys, the strategy "
+        "decorator with and without keep_name, keys of mixed kinds and keys equal across types (1 / 1.0 / True); the "
+        "iteration ORDER of the three dicts is compared with the model's association lists, list(d) / d.values() / d.keys() "
+        "must enumerate alike, iter(sd) in the order of sd.values(), sd.__doc__ must not raise, report len(sd) and name every name; "
+        "a case is non-trivial when at least one assignment succeeded and "
         "the final dict is non-empty or an exception was observed; distinct = distinct JSON history")
 TRUSTED = [
     "hand-written Lean model ALV/Model/C15.lean of lazy_core.MultiKeyDict / StrategyDict "
     "(modelled, not verified: Python dict = insertion-ordered association list; vars(self) = association "
     "list with the attribute `default` as a distinguished name; a KeyError / AttributeError leaves the model state "
-    "unchanged; an operand that cannot be hashed is a separate constructor of the operation type, raising where the "
-    "code first hashes it — half-way for `setBadKey` / `setRefused`, as coded today)",
+    "unchanged; an operand that cannot be hashed is a separate constructor of the operation type / a `KeyItem.unhashable` "
+    "item of a key argument, refused in the first statements of the method as the repaired code does (9cbe718, 735182a); "
+    "`Call.toOp` / `SCall.toOp` classify a key argument of any shape by reading those first statements; the association "
+    "lists keep Python's insertion order, which the tie compares exactly for all three dicts)",
+    "the inherited dict methods the classes rely on or that only LOOK (len, keys, values, items, `in`, get, fromkeys, the "
+    "dict(...) call inside the constructor) are in the model; the inherited MUTATORS (update, setdefault, pop, popitem, clear, "
+    "|=) and copy / | / == / repr / reversed act on the key-tuple storage only and are outside (histogram `inherited_from_dict` "
+    "records which is which and whether the class starts overriding one)",
     "observations coming out of hash containers are compared sorted; the order inside a key tuple is compared exactly",
     "equality vs identity: the Lean value type is the type of EQUALITY CLASSES (`==` of the Python values); the model never "
     "looks at which of several equal objects is stored, so 'the behaviour depends only on the classes' holds for the model "
@@ -71,12 +94,16 @@ TRUSTED = [
     "construction (a state is a value); the tie tests it on the real code",
 ]
 ASSUMPTIONS = [
-    "keys are non-tuple hashables of one type (tie: short strings, fresh equal strings, large ints), values hashables; "
-    "cross-type equal VALUES (1 == 1.0 == True) form ONE group and the property fixes d[k] only up to == : which of the "
-    "equal objects is handed back (the code: the most recently assigned one of the group) is not fixed and not compared; "
-    "cross-type equal KEYS are outside the tie",
+    "keys are non-tuple hashables (tie: short strings, fresh equal strings, large ints, str / int / None / float / frozenset / "
+    "bytes mixed in one dict, keys equal across types 1 == 1.0 == True), values hashables whose __hash__ agrees with "
+    "their __eq__ (two equal values with different hashes end up in two groups: Python's own dict contract is broken "
+    "first); cross-type equal VALUES and KEYS form ONE class and the property fixes d[k] / the tuple items only up to == : "
+    "which of the equal objects is handed back is not fixed and not compared.  A key that is itself a tuple (only reachable "
+    "as an item of a key tuple, `d[((1, 2), 3)] = v`) is outside: `d[(1, 2)]` then looks at the storage, not at the key",
     "key tuples are non-empty (the empty tuple is exercised separately, see known findings)",
-    "StrategyDict names are strings different from 'default' and from every attribute/method of the class; "
+    "StrategyDict names are strings different from 'default' and from every attribute/method of the class (a name "
+    "attribute shadows the method: after sd['items'] = f, sd.__doc__ raises; sd['_keys_dict'] = f breaks the dict; "
+    "sd['default'] = f; del sd['default'] raises AttributeError after removing the item); "
     "stored strategies are never the class-level default lambda; an assignment naming a non-string is expected to be "
     "refused as a whole (the code raises TypeError today, see known findings)",
     "an operation that raises (missing key, unhashable key / value, a value's own __hash__ or __eq__ raising) must leave "
@@ -85,9 +112,11 @@ ASSUMPTIONS = [
     "only the operations the property names — 'any sequence of item assignments (single key or key tuple), deletions and "
     "lookups' — (item assignment / deletion / lookup, key2keys, value2keys, len, iteration, keys/values/items views, the "
     "copy constructor MultiKeyDict(d); for StrategyDict attribute get/set/del, default, call, the strategy decorator).  "
-    "DECISION: the mutators inherited from dict (update, pop, popitem, clear, setdefault, and the lookups get / in / copy, "
-    "which see the key-TUPLE storage) are NOT overridden by the class, bypass the three maps and are outside the property; "
-    "the check records that they are still inherited (histogram `inherited_from_dict`) and never calls them",
+    "DECISION: the mutators inherited from dict (update, pop, popitem, clear, setdefault, |=) are NOT overridden by the "
+    "class, bypass the three maps (after d.clear() len(d) == 0 while list(d) still yields every value) and are outside the "
+    "property; the check records that they are still inherited (histogram `inherited_from_dict`) and never calls them.  The "
+    "inherited lookups `in` / get see the key-TUPLE storage (`'a' in d` is False for a bound key, `('a', 'b') in d` is True "
+    "for a complete key tuple): modelled and compared as they are",
 ]
 
 MANIFEST = {
@@ -98,17 +127,22 @@ MANIFEST = {
              "(+ attribute map + default), with equal results incl. KeyError / AttributeError / NotImplemented / rejection; "
              "corollaries: d[k] = last value assigned by an assignment that did not raise, one tuple per "
              "value in recency order, len/iteration count values, default = first stored strategy while it keeps a "
-             "name and re-chosen when it loses all; a rejected operation is a no-op; the assignments that today fail "
-             "half-way (unhashable key in the tuple, unhashable strategy) keep the maps coherent and refine the deletion "
-             "of the keys processed so far.  Tied to /repo by exhaustive small-universe, random and long histories over value "
-             "universes in which equality and identity differ."),
+             "name and re-chosen when it loses all; EVERY operation that raises (KeyError, AttributeError, TypeError for an "
+             "unhashable / non-string item at any position of a key argument of any shape, unhashable value) returns the state "
+             "it was given, in any state; histories of calls with arbitrary key arguments refine the abstract map; d.items() = "
+             "the specification's items, list(d) / d.values() / d.keys() enumerate in one order; the inherited `in` / get see "
+             "complete key tuples; the constructor collapses its arguments as dict(...) and yields a coherent dict; the code "
+             "before the repairs 9cbe718 / 735182a (half-way failing assignments) is kept as a regression model with theorems "
+             "saying what it destroyed.  Tied to /repo by exhaustive small-universe, random and long histories over value and key "
+             "universes in which equality, identity and type differ, incl. iteration order of the three dicts."),
     "note": ("Trusted: Lean kernel (axioms propext, Classical.choice, Quot.sound), the Python correspondence harness; the "
              "model (Python dict = insertion-ordered association list, vars(self) = association list) is hand written "
              "and validated against the code differentially after every step of every history, incl. the private maps "
              "_keys_dict / _inv_dict.  Values are modelled up to == (which equal object is stored is not modelled).  Outside "
-             "the theorems: the empty key tuple and the half-way failing assignments (recorded known findings), keys that "
-             "are themselves tuples, cross-type equal keys (1 == 1.0 == True), StrategyDict names colliding with "
-             "class attributes, and the inherited dict mutators (update, pop, clear, setdefault) which bypass the maps."),
+             "the theorems: the empty key tuple (recorded known finding), a replaced strategy whose == raises inside a "
+             "multi-name assignment (known finding), keys that are themselves tuples, values whose hash disagrees with ==, "
+             "StrategyDict names colliding with class attributes, and the inherited dict mutators (update, pop, popitem, clear, "
+             "setdefault, |=) which bypass the maps."),
     "technique": "Lean 4 invariant + forward-simulation (refinement) proof over an executable model; differential history correspondence",
 }
 
@@ -248,6 +282,7 @@ class _U(object):
         self.names = list(c["keys"])
         self.funcs = {}
         self.amps = {}
+        self.spell = 0
 
     # keys --------------------------------------------------------------------
     def key(self, name):
@@ -259,7 +294,27 @@ class _U(object):
             return "".join(("K_", name))               # a new, equal string object every time
         if name not in self.names:
             self.names.append(name)
-        return 10 ** 6 + self.names.index(name)        # a new, equal int object every time
+        i = self.names.index(name)
+        if self.kf == "kinds":
+            # keys of different kinds in one dict: str, int, None, float, frozenset, bytes
+            m = i % 6
+            if m == 0:
+                return "".join(("K_", name))
+            if m == 1:
+                return 10 ** 6 + i
+            if m == 2:
+                return None if i == 2 else i + 0.5
+            if m == 3:
+                return i + 0.25
+            if m == 4:
+                return frozenset((i, "fs"))
+            return ("b%d" % i).encode()
+        if self.kf == "numeq":
+            # keys that are EQUAL across types: 1 == 1.0 == True; another spelling at every use
+            self.spell += 1
+            r = self.spell % 3
+            return i if r == 0 else float(i) if r == 1 else (bool(i) if i in (0, 1) else i)
+        return 10 ** 6 + i                             # a new, equal int object every time
 
     def kdec(self, k):
         if self.kf == "plain":
@@ -268,9 +323,22 @@ class _U(object):
         elif self.kf == "fresh":
             if isinstance(k, str) and k.startswith("K_"):
                 return k[2:]
+        elif self.kf == "kinds":
+            for i, name in enumerate(self.names):
+                o = self._kind_obj(i, name)
+                if type(k) is type(o) and k == o:
+                    return name
+        elif self.kf == "numeq":
+            if isinstance(k, (int, float)) and k == int(k) and 0 <= int(k) < len(self.names):
+                return self.names[int(k)]
         elif isinstance(k, int) and not isinstance(k, bool) and 0 <= k - 10 ** 6 < len(self.names):
             return self.names[k - 10 ** 6]
         return "?%r" % (k,)
+
+    def _kind_obj(self, i, name):
+        m = i % 6
+        return ("K_" + name, 10 ** 6 + i, None if i == 2 else i + 0.5, i + 0.25, frozenset((i, "fs")),
+                ("b%d" % i).encode())[m]
 
     def ktuple(self, names):
         return tuple(self.key(n) for n in names)
@@ -387,6 +455,14 @@ def _universe(ops, extra_keys=("zz",), extra_vals=(9,)):
             cand_k, cand_v = [k for k in op[1] if k is not None], []
         elif o in ("setbk", "setns"):
             cand_k, cand_v = op[1] + op[2], [op[3]]
+        elif o == "kc":
+            if op[1] == "v2k":
+                cand_k, cand_v = [], [op[2]] if op[2] is not None else []
+            else:
+                arg = op[2]
+                items = [arg["s"]] if "s" in arg else arg["t"]
+                cand_k = [x for x in items if isinstance(x, str)]
+                cand_v = [op[3]] if op[1] == "set" and op[3] is not None else []
         else:
             cand_k, cand_v = [], []
         for k in cand_k:
@@ -409,10 +485,11 @@ def _halfway_prone(entry, ops, vf):
     return False
 
 
-def _case(entry, ops, route="plain", view="all", vf=None, kf="plain", decoy=False):
+def _case(entry, ops, route="plain", view="all", vf=None, kf="plain", decoy=False, init=None):
     """view="last": the state is observed after the last step only (exhaustive enumerations contain
-    every prefix as a history of its own); results are observed at every step in all modes"""
-    keys, vals = _universe(ops)
+    every prefix as a history of its own); results are observed at every step in all modes.
+    init = {"form": ..., "pairs": [[keys, v, r], ...]}: the arguments of the constructor (mk)"""
+    keys, vals = _universe(([["set", p[0], p[1]] for p in init["pairs"]] if init else []) + ops)
     # key tuples looked up as a whole (`d[(a, b)]`): singletons and ordered pairs of the first keys
     ks = keys[:3]
     tuples = [[k] for k in ks] + [[a, b] for a in ks for b in ks if a != b]
@@ -425,6 +502,8 @@ def _case(entry, ops, route="plain", view="all", vf=None, kf="plain", decoy=Fals
         c["kf"] = kf
     if decoy:
         c["decoy"] = True
+    if init and init["pairs"]:
+        c["init"] = init
     return c
 
 
@@ -435,7 +514,7 @@ def _recase(c, ops, **kw):
     if isinstance(view, dict) and n <= 60:
         view = "all"
     args = {"route": c.get("route", "plain"), "view": view, "vf": c.get("vf"), "kf": c.get("kf", "plain"),
-            "decoy": c.get("decoy", False)}
+            "decoy": c.get("decoy", False), "init": c.get("init")}
     args.update(kw)
     return _case(c["entry"], ops, **args)
 
@@ -445,14 +524,99 @@ def _rand_tuple(rng, keys, maxlen):
     return [rng.choice(keys) for _ in range(n)]
 
 
-def _rand_mk(rng, nkeys, nvals, length, maxlen, rej=0.0, halfway=0.0, fork=0.0):
+def _args_over(items, maxlen):
+    out = [{"s": x} for x in items]
+    for n in range(maxlen + 1):
+        out.extend({"t": list(t)} for t in itertools.product(items, repeat=n))
+    return out
+
+
+def _sweep_calls(items, vals, sd, shift=0):
+    """every kind of call x every shape of key argument over `items` (None = an unhashable object, an int = a
+    hashable non-string), single and in tuples of length 0..3 at every position — all the calls that must
+    NOT change the dict: lookups, refused assignments, deletions of keys that cannot be there"""
+    calls = []
+    for n, a in enumerate(_args_over(items, 3)):
+        its = [a["s"]] if "s" in a else a["t"]
+        clean = all(isinstance(x, str) for x in its)
+        uk = UNHASHABLE[(n + shift) % len(UNHASHABLE)]
+        for kind in ("get", "del", "in", "dget") if sd else ("get", "del", "k2k", "in", "dget"):
+            if kind == "del" and "s" in a and clean:
+                continue          # a deletion that may succeed: left to the histories
+            calls.append(["kc", kind, a, uk])
+        if clean:
+            calls.append(["kc", "set", a, None, uk])
+        else:
+            for v in vals[:1] + [None] if n % 3 else vals + [None]:
+                calls.append(["kc", "set", a, v, uk])
+    if not sd:
+        calls += [["kc", "v2k", v, UNHASHABLE[shift % len(UNHASHABLE)]] for v in vals + [None]]
+    return calls[shift % 7:] + calls[:shift % 7]
+
+
+def _rand_call(rng, keys, live, vals, sd):
+    kind = rng.choice(["set", "set", "set", "get", "get", "del", "del", "in", "dget"] + ([] if sd else ["k2k", "v2k"]))
+    uk = rng.choice(UNHASHABLE)
+    if kind == "v2k":
+        return ["kc", "v2k", rng.choice(vals + [9, None]), uk]
+
+    def item():
+        q = rng.random()
+        if q < 0.5 and live:
+            return rng.choice(live)
+        if q < 0.75:
+            return rng.choice(keys)
+        if q < 0.82:
+            return "zz"
+        if q < 0.92 or not sd:
+            return None
+        return rng.randrange(12)
+    if rng.random() < 0.4:
+        arg = {"s": item()}
+    else:
+        n = rng.choice([0, 1, 1, 2, 2, 3, 4])
+        if kind == "set" and n == 0:
+            n = 1                 # (the empty key tuple is a known finding of its own)
+        arg = {"t": [item() for _ in range(n)]}
+    if kind == "set":
+        return ["kc", "set", arg, rng.choice(vals) if rng.random() < 0.85 else None, uk]
+    return ["kc", kind, arg, uk]
+
+
+def _call_effect(op, live):
+    """the live keys after a call (generator bookkeeping only)"""
+    if op[1] not in ("set", "del"):
+        return live
+    arg = op[2]
+    its = [arg["s"]] if "s" in arg else arg["t"]
+    if not all(isinstance(x, str) for x in its):
+        return live
+    if op[1] == "set":
+        return live if op[3] is None else [k for k in live if k not in its] + its
+    return [k for k in live if "s" not in arg or k != arg["s"]]
+
+
+def _rand_init(rng, keys, vals):
+    pairs = []
+    for _ in range(rng.choice([1, 2, 3, 3, 5])):
+        ks = [rng.choice(keys)] if rng.random() < 0.7 else [rng.choice(keys) for _ in range(rng.choice([2, 2, 3]))]
+        pairs.append([ks, rng.choice(vals), rng.randrange(3)])
+    return {"form": rng.choice(["dict", "pairs", "iter", "kwargs", "pairs+kwargs", "dict+kwargs"]), "pairs": pairs}
+
+
+def _rand_mk(rng, nkeys, nvals, length, maxlen, rej=0.0, halfway=0.0, fork=0.0, calls=0.0, live=()):
     """rej: share of atomically rejected operations (unhashable value, unhashable lookup operand);
-    halfway: share of assignments with an unhashable key in the tuple"""
+    halfway: share of assignments with an unhashable key in the tuple; calls: share of calls with a key
+    argument of any shape"""
     keys = ["k%d" % i for i in range(nkeys)]
     vals = list(range(nvals))
     ops = []
-    live = []
+    live = list(live)
     for _ in range(length):
+        if calls and rng.random() < calls:
+            ops.append(_rand_call(rng, keys, live, vals, False))
+            live = _call_effect(ops[-1], live)
+            continue
         r = rng.random()
         if r < rej:
             if rng.random() < 0.6:
@@ -501,11 +665,17 @@ def _rand_mk(rng, nkeys, nvals, length, maxlen, rej=0.0, halfway=0.0, fork=0.0):
     return ops
 
 
-def _rand_sd(rng, nkeys, nvals, length, rej=0.0, halfway=0.0):
+def _rand_sd(rng, nkeys, nvals, length, rej=0.0, halfway=0.0, calls=0.0):
     keys = ["n%d" % i for i in range(nkeys)]
     vals = list(range(nvals))
     ops = []
+    live = []
     for _ in range(length):
+        if calls and rng.random() < calls:
+            recent = [k for o in ops[-8:] if o[0] == "set" for k in o[1]]
+            ops.append(_rand_call(rng, keys, live + recent, vals, True))
+            live = _call_effect(ops[-1], live)
+            continue
         r = rng.random()
         if r < rej:
             ops.append(["bad", rng.choice(BAD_SD)])
@@ -645,6 +815,23 @@ def generate(rng, tier, scale=1):
             for n, h in enumerate(itertools.product(ops, repeat=3)):
                 cases.append(_case("mk", list(h), view="last", vf=("tuple", "num", "str", "scale", "bound")[n % 5],
                                    kf=("fresh", "int", "plain")[(n // 5) % 3]))
+        # key arguments of every shape for every operation: after each prefix, all the calls that must not
+        # change the dict (lookups / `in` / `get` / refused assignments / deletions of impossible keys, with
+        # unhashable and non-string items alone and at every position of tuples of length 0..3), then one
+        # ordinary operation: a call that left a trace shows in the views
+        pre_mk = [[]] + [[list(a)] for a in MK_REJ_BASE] + [[list(rng.choice(MK_REJ_BASE)), list(rng.choice(MK_REJ_BASE))]
+                                                            for _ in range(10 if quick else 64)]
+        for n, pre in enumerate(pre_mk):
+            cases.append(_case("mk", pre + _sweep_calls(["a", "b", None], [0, 1], False, n) + [["set", ["b", "a"], 1], ["len"]],
+                               view="last", vf=MK_VF[n % len(MK_VF)], kf=("plain", "fresh", "kinds", "numeq", "int")[n % 5]))
+        pre_sd = [[]] + [[list(a)] for a in SD_REJ_BASE] + [[list(rng.choice(SD_REJ_BASE[:7])), list(rng.choice(SD_REJ_BASE))]
+                                                            for _ in range(6 if quick else 48)]
+        for n, pre in enumerate(pre_sd):
+            cases.append(_case("sd", pre + _sweep_calls(["a", "b", None, 7 + n], [0, 1], True, n) + [["set", ["b", "a"], 1], ["call"]],
+                               view="last", vf=SD_VF[n % 4], kf=("plain", "fresh")[n % 2]))
+        # cross-type equal keys and keys of mixed kinds, exhaustively (depth 2)
+        for n, h in enumerate(itertools.product(ops, repeat=2)):
+            cases.append(_case("mk", list(h), view="all", vf=("int", "num", "scale")[n % 3], kf=("numeq", "kinds")[(n // 3) % 2]))
         # malformed stream: empty key tuple
         for v in (0, 1):
             cases.append(_case("mk", [["set", [], v]], "empty"))
@@ -654,25 +841,31 @@ def generate(rng, tier, scale=1):
         for i in range(3 if quick else 12):
             n = rng.choice([1000, 2000, 4000]) if i else 4000
             view = {"every": 97}
-            cases.append(_case("mk", _rand_mk(rng, 12, rng.choice([3, 5]), n, 4, rej=0.02), view=view,
-                               vf=rng.choice(MK_VF), kf=rng.choice(["plain", "fresh", "int"])))
-            cases.append(_case("sd", _rand_sd(rng, 12, rng.choice([3, 5]), n // 2, rej=0.02), view=view,
+            cases.append(_case("mk", _rand_mk(rng, 12, rng.choice([3, 5]), n, 4, rej=0.02, calls=0.1), view=view,
+                               vf=rng.choice(MK_VF), kf=rng.choice(["plain", "fresh", "int", "kinds", "numeq"])))
+            cases.append(_case("sd", _rand_sd(rng, 12, rng.choice([3, 5]), n // 2, rej=0.02, calls=0.1), view=view,
                                vf=rng.choice(SD_VF[:4]), kf=rng.choice(["plain", "fresh"])))
     nrand = (1000 if quick else 8000) * scale
     # (histories of 20 and 40 operations: light view after every step, everything after every 4th)
     for i in range(nrand):
         length = rng.choice([3, 6, 10, 20, 40])
-        route = rng.choice(["plain", "plain", "ctor"])
-        cases.append(_case("mk", _rand_mk(rng, rng.choice([2, 4, 6]), rng.choice([1, 2, 4]), length, 4,
-                                          rej=rng.choice([0, 0, 0.1]), fork=rng.choice([0, 0, 0, 0.05])), route,
+        route = rng.choice(["plain", "plain", "plain", "ctor", "fromkeys"])
+        nk, nv = rng.choice([2, 4, 6]), rng.choice([1, 2, 4])
+        init = None
+        if route == "plain" and rng.random() < 0.35:
+            init = _rand_init(rng, ["k%d" % j for j in range(nk)], list(range(nv)))
+        cases.append(_case("mk", _rand_mk(rng, nk, nv, length, 4,
+                                          rej=rng.choice([0, 0, 0.1]), fork=rng.choice([0, 0, 0, 0.05]),
+                                          calls=rng.choice([0, 0.2, 0.5]),
+                                          live=[k for p in init["pairs"] for k in p[0]] if init else ()), route,
                            view="all" if length <= 10 else {"every": 4},
-                           vf=rng.choice(MK_VF), kf=rng.choice(["plain", "fresh", "int"]),
-                           decoy=rng.random() < 0.2))
+                           vf=rng.choice(MK_VF), kf=rng.choice(["plain", "fresh", "int", "kinds", "numeq"]),
+                           decoy=rng.random() < 0.2, init=init))
     for i in range(nrand):
         length = rng.choice([3, 6, 10, 20, 40])
-        route = rng.choice(["plain", "decorator"])
+        route = rng.choice(["plain", "decorator", "decorator-rename"])
         cases.append(_case("sd", _rand_sd(rng, rng.choice([2, 3, 5]), rng.choice([2, 3, 4]), length,
-                                          rej=rng.choice([0, 0, 0.1])), route,
+                                          rej=rng.choice([0, 0, 0.1]), calls=rng.choice([0, 0.2, 0.5])), route,
                            view="all" if length <= 10 else {"every": 4},
                            vf=rng.choice(SD_VF), kf=rng.choice(["plain", "plain", "fresh"]),
                            decoy=rng.random() < 0.2))
@@ -707,6 +900,9 @@ def _run(f, expect=None, booms=None, i=None):
     except Exception as e:
         k = err_kind(e)
         if expect is not None:
+            if k not in expect and isinstance(e, Boom) and booms is not None:
+                booms.append(i)             # a stored value's own == raised: refused on the impl's say-so
+                return {"err": "Rejected"}
             return {"err": "Rejected" if k in expect else k}
         if k in ("KeyError", "AttributeError"):
             return {"err": k}
@@ -729,7 +925,7 @@ def _view_level(c):
     every = 1 if view == "all" else 0 if view == "last" else int(view["every"])
 
     def level(i):
-        if i == n - 1 or ops[i][0] in REJ_OPS or every == 1 or (every != 0 and (i + 1) % every == 0):
+        if i == n - 1 or ops[i][0] in REJ_OPS or ops[i][0] == "kc" or every == 1 or (every != 0 and (i + 1) % every == 0):
             return 2
         return 0 if every == 0 else 1
     return level
@@ -773,6 +969,10 @@ def _mk_view(d, u, keys, vals, tuples):
         "values": sorted([C(v) for v in d.values()]),
         "keys_dict": sorted([[D(k), [D(x) for x in t]] for k, t in d._keys_dict.items()]),
         "inv_dict": sorted([[C(v), [D(x) for x in t]] for v, t in d._inv_dict.items()]),
+        # iteration ORDER of the three dicts (compared with the model's association lists as they are)
+        "o_inv": [C(v) for v in d._inv_dict],
+        "o_items": [[[D(k) for k in kt], C(v)] for kt, v in dict.items(d)],
+        "o_keys": [D(k) for k in d._keys_dict],
         "get": get,
         "k2k": k2k,
         "v2k": [[D(x) for x in d.value2keys(u.val(v, 1))] for v in vals],
@@ -797,6 +997,95 @@ def _setkey(u, names, single=False):
     if single and len(names) == 1:
         return u.key(names[0])
     return u.ktuple(names)
+
+
+_NONSTR = (7, None, 2.5, b"x", frozenset(), True)
+
+
+def _call_key(u, arg, uk):
+    """the Python key argument of a call: {"s": item} a single object, {"t": [...]} a tuple; an item is a
+    key name, None (an unhashable object of kind `uk`) or an int n (sd: a hashable non-string)"""
+    def item(x):
+        if x is None:
+            return _unhashable(uk)
+        if isinstance(x, str):
+            return u.key(x)
+        return _NONSTR[x % len(_NONSTR)]
+    if "s" in arg:
+        return item(arg["s"])
+    return tuple(item(x) for x in arg["t"])
+
+
+def _do_call(d, u, op, booms=None, i=None):
+    """one call with a key argument of any shape on the real dict.  The exception KIND is part of the
+    observation: TypeError (or the exception of the operand's own __hash__) = "Rejected", KeyError stays"""
+    kind, uk = op[1], op[-1]
+    if kind == "v2k":
+        uses_bad = op[2] is None
+    else:
+        uses_bad = None in ([op[2]["s"]] if "s" in op[2] else op[2]["t"]) or (kind == "set" and op[3] is None)
+    # (the exception of the operand's own __hash__ counts as the refusal only when such an operand is there)
+    expect = ("TypeError", "OTHER:Boom") if uk == "badhash" and uses_bad else _TYPE_ERROR
+    if kind == "v2k":
+        val = _unhashable(uk) if op[2] is None else u.val(op[2], 1)
+        return _run(lambda: {"t": [u.kdec(x) for x in d.value2keys(val)]}, expect, booms, i)
+    key = _call_key(u, op[2], uk)
+    if kind == "set":
+        obj = _unhashable(uk) if op[3] is None else u.val(op[3], 0)
+
+        def f():
+            d[key] = obj
+        return _run(f, expect, booms, i)
+    if kind == "get":
+        return _run(lambda: _val(u.cls(d[key])), expect, booms, i)
+    if kind == "del":
+        def f():
+            del d[key]
+        return _run(f, expect, booms, i)
+    if kind == "k2k":
+        return _run(lambda: {"t": [u.kdec(x) for x in d.key2keys(key)]}, expect, booms, i)
+    if kind == "in":
+        return _run(lambda: bool(key in d), expect, booms, i)
+    if kind == "dget":
+        def f():
+            r = d.get(key)
+            return "None" if r is None else _val(u.cls(r))
+        return _run(f, expect, booms, i)
+    raise ValueError("unknown call %r" % (op,))
+
+
+def _construct(c, u, alias):
+    """MultiKeyDict(*args, **kwargs) in the form the case asks for"""
+    from audiolazy import MultiKeyDict
+    init = c["init"]
+    form = init["form"]
+    pairs = []
+    for p in init["pairs"]:
+        names = p[0]
+        key = u.key(names[0]) if len(names) == 1 else u.ktuple(names)
+        pairs.append((key, u.val(p[1], p[2] if len(p) > 2 else 0)))
+    kw_ok = all(isinstance(k, str) for k, _ in pairs)
+    if form in ("kwargs", "pairs+kwargs", "dict+kwargs") and not kw_ok:
+        form = "pairs"
+    if form == "dict":
+        arg = dict(pairs)
+        pristine = dict(arg)
+        d = MultiKeyDict(arg)
+        if arg != pristine or list(arg) != list(pristine):
+            alias.append("constructor changed its argument")
+        return d
+    if form == "pairs":
+        return MultiKeyDict(pairs)
+    if form == "iter":
+        return MultiKeyDict(iter(pairs))
+    if form == "kwargs":
+        return MultiKeyDict(**dict(pairs))
+    h = len(pairs) // 2
+    if form == "pairs+kwargs":
+        return MultiKeyDict(pairs[:h], **dict(pairs[h:]))
+    if form == "dict+kwargs":
+        return MultiKeyDict(dict(pairs[:h]), **dict(pairs[h:]))
+    raise ValueError("unknown constructor form %r" % (form,))
 
 
 def _aliasing(c, u):
@@ -830,10 +1119,22 @@ def _impl_mk(c):
         d = MultiKeyDict(init)
         if init != pristine or list(init) != list(pristine):
             alias.append("constructor changed its argument")
+    if c.get("route") == "fromkeys":
+        # leading single-key assignments of ONE value class go through dict.fromkeys (which calls
+        # cls() and then __setitem__ for every element, repeated ones included)
+        while start < len(ops) and ops[start][0] == "sets" and ops[start][2] == ops[0][2]:
+            start += 1
+        if start:
+            d = MultiKeyDict.fromkeys([u.key(o[1]) for o in ops[:start]], u.val(ops[0][2], 0))
+            if type(d) is not MultiKeyDict:
+                alias.append("fromkeys did not build a MultiKeyDict")
+    if c.get("init"):
+        d = _construct(c, u, alias)
     if d is None:
         d = MultiKeyDict()
     decoy = MultiKeyDict() if c.get("decoy") else None
     watched = []       # (dict that was copied, its full view at that moment)
+    forked = False     # the copy rebuilds `_keys_dict` tuple by tuple: its key ORDER is not the original's
     level = _view_level(c)
     steps = []
     for i, op in enumerate(ops):
@@ -902,16 +1203,25 @@ def _impl_mk(c):
                 r = _run(lambda: d[(u.key(keys[0]), [])], _NOT_THERE)
             else:
                 raise ValueError("unknown bad operand %r" % (op,))
+        elif o == "kc":
+            r = _do_call(d, u, op)
         elif o == "fork":
             # go on with a copy made by the constructor; the original is watched from now on
             watched.append((d, _mk_view(d, u, keys, vals, tuples)))
             d = MultiKeyDict(d)
+            forked = True
             r = len(d)
         else:
             raise ValueError("unknown op %r" % (op,))
         lv = level(i)
         if lv == 2:
             v = _mk_view(d, u, keys, vals, tuples)
+            if forked:
+                del v["o_keys"]
+            # C15.26: list(d), d.values() and d.keys() enumerate the values in the same order
+            if [u.cls(x) for x in d] != [u.cls(x) for x in d.values()] or \
+                    [tuple(t) for t in d.keys()] != [tuple(d.value2keys(x)) for x in d]:
+                alias.append("iteration orders of list(d), d.values(), d.keys() disagree")
             for j, (od, snap) in enumerate(watched):
                 if _mk_view(od, u, keys, vals, tuples) != snap:
                     alias.append("dict copied at fork %d changed with its copy" % j)
@@ -959,14 +1269,42 @@ def _impl_sd(c):
     def attr_name(k):
         return "default" if k is None else u.key(k)
 
+    rename = c.get("route") == "decorator-rename"
+    deco = deco or rename
+
     def assign(names, obj, single):
         if deco and len(names) > 0 and all(k is not None for k in names):
             nm = getattr(obj, "__name__", None)
-            sd.strategy(*u.ktuple(names), keep_name=True)(obj)
-            if getattr(obj, "__name__", None) != nm:
-                alias.append("strategy(keep_name=True) renamed the strategy")
+            kt = u.ktuple(names)
+            if rename and not hasattr(obj, "__self__") and callable(obj):
+                # keep_name defaults to False: the strategy is renamed to the FIRST name given
+                # (a bound method cannot be renamed: that route keeps the name)
+                back = sd.strategy(*kt)(obj)
+                if getattr(obj, "__name__", None) != str(kt[0]):
+                    alias.append("strategy() did not rename the strategy to the first name")
+            else:
+                back = sd.strategy(*kt, keep_name=True)(obj)
+                if getattr(obj, "__name__", None) != nm:
+                    alias.append("strategy(keep_name=True) renamed the strategy")
+            if back is not sd:
+                alias.append("the decorator did not return the StrategyDict")
         else:
             sd[_setkey(u, names, single)] = obj
+
+    def doc_check():
+        """the self-generated docstring: never raises, counts the strategies, names every name"""
+        try:
+            doc = sd.__doc__
+        except Exception as e:
+            alias.append("__doc__ raised %s" % err_kind(e))
+            return
+        if not isinstance(doc, str) or "Strategies stored: %d." % len(sd) not in doc:
+            alias.append("__doc__ does not report len(sd)")
+            return
+        named = sorted(set(_DOC_NAME.findall(doc)))
+        want = sorted(set(k for kt in dict.keys(sd) for k in kt))
+        if named != want:
+            alias.append("__doc__ names %r, stored %r" % (named, want))
 
     level = _view_level(c)
     steps = []
@@ -1036,6 +1374,8 @@ def _impl_sd(c):
                 r = {"err": "Rejected"} if r is None else r
             else:
                 raise ValueError("unknown bad operand %r" % (op,))
+        elif o == "kc":
+            r = _do_call(sd, u, op, booms, i)
         else:
             raise ValueError("unknown op %r" % (op,))
         lv = level(i)
@@ -1060,12 +1400,19 @@ def _impl_sd(c):
                     ga.append(_ATTR_ERROR)
             # StrategyDict iterates its values
             v["sditer"] = sorted(u.cls(x) for x in sd)
+            if [u.cls(x) for x in sd] != [x[1] for x in v["o_items"]]:
+                alias.append("iter(sd) is not the order of sd.values()")
+            if u.vf != "picky":       # (`default not in values` compares strategies: a picky one raises)
+                doc_check()
         if alias:
             v["alias"] = sorted(set(alias))
         v["res"] = r
         steps.append(v)
     return {"steps": steps, "booms": booms, "handed": _aliasing(c, u)}
 
+
+import re
+_DOC_NAME = re.compile(r"sd_under_test\.(\w+)")
 
 _BOOMS = {}      # history -> steps refused on the impl's say-so (read by `request`)
 
@@ -1113,10 +1460,15 @@ def request(c):
             ops.append(["rej"] if sd else ["bad"])
         elif o == "fork":
             ops.append(["len"])
+        elif o == "kc":
+            ops.append(op[:-1])                # (the last field is the kind of the unhashable objects)
         else:
             ops.append(op)
-    return {"entry": c["entry"], "ops": ops, "keys": c["keys"], "vals": c["vals"],
-            "tuples": c.get("tuples", []), "view": c.get("view", "all")}
+    req = {"entry": c["entry"], "ops": ops, "keys": c["keys"], "vals": c["vals"],
+           "tuples": c.get("tuples", []), "view": c.get("view", "all")}
+    if c.get("init"):
+        req["init"] = [[p[0], p[1]] for p in c["init"]["pairs"]]
+    return req
 
 
 # ----------------------------------------------------------------------------
@@ -1127,6 +1479,11 @@ _SORTED = ("iter", "items", "keys_dict", "inv_dict", "sditer")
 
 def _canon_model(m):
     out = {}
+    # the association lists of the model in THEIR order = the iteration order of the three dicts
+    if "inv_dict" in m:
+        out["o_inv"] = [x[0] for x in m["inv_dict"]]
+        out["o_items"] = m["items"]
+        out["o_keys"] = [x[0] for x in m["keys_dict"]]
     for f in ("res", "len", "iter", "items", "keys_dict", "inv_dict", "get", "k2k", "v2k", "gett",
               "attrs", "default", "getattr", "sditer"):
         if f in m:
@@ -1155,7 +1512,7 @@ def _diff_step(iv, ref, kind):
     bad = []
     for f, want in ref.items():
         got = iv.get(f)
-        if got != want:
+        if got != want and not (f == "o_keys" and f not in iv):
             bad.append(f)
     if iv.get("alias"):
         bad.append("alias")
@@ -1198,12 +1555,10 @@ def first_diff(c, io, drv, kind):
 
 
 def _model_follows_defect(c):
-    """histories outside the refinement theorems (`Op.valid` / `SOp.valid`): the empty key tuple and the
-    assignments that fail half-way today.  There the model follows the code as it is, the spec says
-    what the property wants."""
-    sd = c["entry"] == "sd"
+    """histories outside the refinement theorems (`Op.valid` / `SOp.valid`): the empty key tuple.
+    There the model follows the code as it is, the spec says what the property wants."""
     for o in c["ops"]:
-        if o[0] == "setbk" or (sd and o[0] == "setu") or (o[0] == "set" and o[1] == []):
+        if o[0] == "set" and o[1] == []:
             return True
     return False
 
@@ -1260,12 +1615,42 @@ def _rej_tag(c, io, i):
         return "set", "non-string-name"
     if o == "bad":
         return op[1], "unhashable-operand"
+    if o == "kc":
+        if i in io.get("booms", ()):
+            return op[1], "eq-raises"
+        sh = _arg_shape(op)
+        if "unhashable" in sh or "nonstr" in sh:
+            return "call-" + op[1], sh.split(":")[-1]
+        return None
     if i in io.get("booms", ()):
         return ("set" if o in ("set", "sets") else o), "eq-raises"
     return None
 
 
-_MUTATORS = ("update", "pop", "popitem", "clear", "setdefault", "get", "copy", "__contains__")
+_MUTATORS = ("update", "pop", "popitem", "clear", "setdefault", "__ior__", "__or__", "copy", "fromkeys",
+             "get", "__contains__", "keys", "values", "items", "__len__", "__eq__", "__repr__", "__reversed__",
+             "__iter__", "__getitem__", "__setitem__", "__delitem__")
+_IN_MODEL = ("get", "__contains__", "keys", "values", "items", "__len__", "__iter__", "fromkeys")
+
+
+def _arg_shape(op):
+    """histogram bucket of the key argument of a call"""
+    if op[1] == "v2k":
+        return "value:%s" % ("unhashable" if op[2] is None else "ok")
+    arg = op[2]
+    items = [arg["s"]] if "s" in arg else arg["t"]
+    kinds = ["ok" if isinstance(x, str) else "unhashable" if x is None else "nonstr" for x in items]
+    what = "ok"
+    if "unhashable" in kinds:
+        what = "unhashable@%s" % ("only" if len(kinds) == 1 else "first" if kinds[0] == "unhashable" else
+                                  "last" if kinds[-1] == "unhashable" and kinds.count("unhashable") == 1 else "inside")
+    elif "nonstr" in kinds:
+        what = "nonstr@%s" % ("only" if len(kinds) == 1 else "first" if kinds[0] == "nonstr" else
+                              "last" if kinds[-1] == "nonstr" and kinds.count("nonstr") == 1 else "inside")
+    if op[1] == "set" and op[3] is None:
+        what = what + "+unhashable-value" if what != "ok" else "unhashable-value"
+    dup = len(set(map(str, items))) < len(items)
+    return "%s%s:%s" % ("single" if "s" in arg else "tuple%d" % min(len(items), 4), "/dup" if dup else "", what)
 
 
 def extra_checks(eng):
@@ -1276,14 +1661,16 @@ def extra_checks(eng):
     for name in _MUTATORS:
         for cls in (MultiKeyDict, StrategyDict):
             own = any(name in vars(k) for k in cls.__mro__ if k not in (dict, object))
-            eng.count("inherited_from_dict", "%s.%s:%s" % (cls.__name__, name,
-                                                         "overridden" if own else "inherited(out of scope)"))
+            eng.count("inherited_from_dict", "%s.%s:%s" % (
+                cls.__name__, name, "overridden" if own else
+                "inherited(in the model)" if name in _IN_MODEL else "inherited(bypasses the maps, out of scope)"))
     return []
 
 
 def tally(eng, c, io):
     eng.count("entry", c["entry"])
     eng.count("route", c.get("route", "plain"))
+    eng.count("constructor", "%s:%d-pairs" % (c["init"]["form"], min(len(c["init"]["pairs"]), 4)) if c.get("init") else "no-arguments")
     eng.count("history_len", _len_bucket(len(c["ops"])))
     eng.count("value_flavour", "%s:%s" % (c["entry"], c.get("vf") or ("int" if c["entry"] == "mk" else "func")))
     eng.count("key_flavour", "%s:%s" % (c["entry"], c.get("kf", "plain")))
@@ -1316,6 +1703,9 @@ def tally(eng, c, io):
             name = "setu/" + op[2]
         if name == "bad":
             name = "bad/" + op[1]
+        if name == "kc":
+            name = "call-" + op[1]
+            eng.count("call_key_argument", "%s:%s:%s:%s" % (c["entry"], op[1], _arg_shape(op), tag))
         eng.count("op", "%s:%s" % (name, tag))
         rt = _rej_tag(c, io, i)
         if rt is not None:
@@ -1462,10 +1852,26 @@ def shrink(c):
                     yield put([o, op[1], op[2][:j] + op[2][j + 1:], op[3]])
             if o == "fork":
                 yield put(["len"])
+            if o == "kc" and op[1] != "v2k" and "t" in op[2]:
+                t = op[2]["t"]
+                for j in range(len(t)):
+                    if len(t) > 1 or op[1] != "set":
+                        yield put(op[:2] + [{"t": t[:j] + t[j + 1:]}] + op[3:])
+                if len(t) == 1:
+                    yield put(op[:2] + [{"s": t[0]}] + op[3:])
+            if o == "kc" and op[-1] != "list":
+                yield put(op[:-1] + ["list"])
         if c.get("route", "plain") not in ("plain", "empty"):
             yield _recase(c, ops, route="plain")
         if c.get("decoy"):
             yield _recase(c, ops, decoy=False)
+        if c.get("init"):
+            ps = c["init"]["pairs"]
+            yield _recase(c, ops, init=None)
+            for j in range(len(ps)):
+                yield _recase(c, ops, init={"form": c["init"]["form"], "pairs": ps[:j] + ps[j + 1:]})
+            if c["init"]["form"] != "pairs":
+                yield _recase(c, ops, init={"form": "pairs", "pairs": ps})
         if c.get("kf", "plain") != "plain":
             yield _recase(c, ops, kf="plain")
         if c.get("vf") is not None:
